@@ -28,6 +28,7 @@ type Val struct {
 	Fn    *ssa.Function
 	Dyn   types.Type // statically known dynamic type of an interface value
 	Cancel bool      // a context.CancelFunc created by the verified code
+	Guard  string    // mutex that guards the object this value was loaded from (guarded_by)
 	FreshFrom string // deep-fresh message: everything reachable from it was allocated at or after this allocation mark
 }
 
@@ -143,6 +144,10 @@ type FnCtx struct {
 	lastCall   map[string]Val
 	pureObs    []string
 	sliceLen   map[string]string // slice terms whose length is a literal (argument lists built at call sites)
+	guardOf    map[string]string     // map/pointer terms loaded from guarded fields -> mutex
+	guardSub   map[string]*guardInfo // sub-objects whose fields are guarded by the owner's mutex
+	writeOnce  map[string]bool       // cell refs of captured variables with a single (initialising) store
+	constCell  map[string]Val        // captured variables that are written exactly once (at their declaration): cell ref -> value
 	intUB      map[string]int    // small static upper bounds of integer terms (lengths of such slices after phi merges)
 	grafts     []string          // objects into which a message/list pointer was stored (deep-freshness of newer clones is void for them)
 }
@@ -222,7 +227,10 @@ func (c *FnCtx) faddr(structT types.Type, field int, ref string) string {
 	st := structT.Underlying().(*types.Struct)
 	fn := q("faddr$" + shortTypeName(structT) + "$" + st.Field(field).Name())
 	inv := q("faddr-inv$" + shortTypeName(structT) + "$" + st.Field(field).Name())
-	c.sc.Decl("faddr:"+fn, fmt.Sprintf("(declare-fun %s (Int) Int)\n(declare-fun %s (Int) Int)\n(assert (forall ((r Int)) (! (and (= (%s (%s r)) r) (=> (> r 0) (> (%s r) 0)) (= (< r |alloc0|) (< (%s r) |alloc0|))) :pattern ((%s r)))))", fn, inv, inv, fn, fn, fn, fn))
+	// derived addresses of different embedded fields never coincide: each carries the identity of its field
+	c.sc.Decl("atag", "(declare-fun |atag| (Int) Int)")
+	uid := c.eng.faddrUID(fn)
+	c.sc.Decl("faddr:"+fn, fmt.Sprintf("(declare-fun %s (Int) Int)\n(declare-fun %s (Int) Int)\n(assert (forall ((r Int)) (! (and (= (%s (%s r)) r) (=> (> r 0) (> (%s r) 0)) (= (< r |alloc0|) (< (%s r) |alloc0|)) (= (|atag| (%s r)) %d)) :pattern ((%s r)))))", fn, inv, inv, fn, fn, fn, fn, uid, fn))
 	return App(fn, ref)
 }
 
@@ -1045,6 +1053,13 @@ func (c *FnCtx) havocSet(st *State, m *modSet, why string) {
 			if c.eng.immutableComp(k) {
 				continue
 			}
+			if strings.HasPrefix(k, "ghost$lock") || strings.HasPrefix(k, "ghost$cb") || k == "ghost$cancelled" {
+				// bookkeeping of the verified goroutine itself (locks it holds, its callback log): code we cannot see
+				// does not lock/unlock on our behalf (assumed); callbacks update the log through their own hooks
+				if !m.comps[k] {
+					continue
+				}
+			}
 			st.heap[k] = c.sc.Fresh(k+"$"+why, c.eng.comps[k])
 		}
 	} else {
@@ -1483,6 +1498,9 @@ func (c *FnCtx) load(st *State, l *Loc, resT types.Type) Val {
 		}
 		return Val{T: t, E: e2}
 	case locCell:
+		if v, ok := c.constCell[l.Ref]; ok {
+			return v
+		}
 		e := c.sc.Define("ld", c.ty.SortOf(l.RootT), "(select "+c.heapGet(st, l.Comp)+" "+l.Ref+")")
 		c.assumeLoaded(st, l.RootT, e)
 		return Val{T: l.RootT, E: e}
@@ -1531,6 +1549,9 @@ func (c *FnCtx) store(st *State, l *Loc, v Val, pos token.Pos) {
 		c.heapSet(st, h, "(store "+c.heapGet(st, h)+" "+l.Ref+" "+nv+")")
 	case locCell:
 		c.heapSet(st, l.Comp, "(store "+c.heapGet(st, l.Comp)+" "+l.Ref+" "+v.E+")")
+		if c.writeOnce[l.Ref] {
+			c.constCell[l.Ref] = v
+		}
 	case locLocal:
 		if len(l.Path) == 0 {
 			nv := v
